@@ -16,6 +16,9 @@ import tv
 _OBJ = {}
 
 
+_KEPT = []
+
+
 def staged_call(variant):
     """The same analysis through the PUBLIC STAGE FUNCTIONS, as a user composing them would: the shape table the user holds carries its own
     row labels (variant of project.relabel: a window of a longer table, a late row dropped, descending labels) - a table is a sequence of rows
@@ -30,7 +33,12 @@ def staged_call(variant):
         method = o.get('burst_method', 'cycles')
         kw = {} if o.get('find_extrema_kwargs') is None else {'find_extrema_kwargs': o['find_extrema_kwargs']}
         center = o.get('center_extrema', 'peak')
-        if (variant // 4) % 2 == 0:
+        if (variant // 4) % 3 == 2 and center == 'trough':
+            # the trough-centred table built by hand the documented way: the peak-centred shape table of the NEGATED signal, renamed
+            # (whatever the shape function remembers about the table it returned - attributes, caches - must not outlive the renaming)
+            from bycycle.utils.dataframes import rename_extrema_df
+            shp = rename_extrema_df('trough', compute_shape_features(-sig, fs, f_range, center_extrema='peak', **kw))
+        elif (variant // 4) % 2 == 0:
             shp = compute_shape_features(sig, fs, f_range, center_extrema=center, **kw)
         else:
             # one level further down: the shape table composed from the SECONDARY public functions, as documented in their own examples
@@ -49,6 +57,7 @@ def staged_call(variant):
                                 'time_decay': sym['time_decay'], 'time_rise': sym['time_rise'], 'volt_decay': sym['volt_decay'], 'volt_rise': sym['volt_rise'],
                                 'volt_amp': sym['volt_amp'], 'time_rdsym': sym['time_rdsym'], 'time_ptsym': sym['time_ptsym'], 'band_amp': band})
             shp = rename_extrema_df(center, pd.concat((shp, smp), axis=1))
+        shp_returned = shp
         shp = pj.relabel(shp, variant)
         tk, bk = dict(o.get('threshold_kwargs') or {}), dict(o.get('burst_kwargs') or {})
         if method == 'amp':                # the documented plumbing of the two option sets, done by the user
@@ -71,7 +80,15 @@ def staged_call(variant):
             raise AssertionError('compute_burst_features returned %d rows for %d cycles' % (len(bf), len(shp)))
         df = pd.concat((bf.reset_index(drop=True), shp.reset_index(drop=True)), axis=1).set_axis(shp.index, axis=0)     # positional, labels kept
         df = detect_bursts_cycles(df, **tk) if method == 'cycles' else detect_bursts_amp(df, **tk)
-        return df if o.get('return_samples', True) else drop_samples_df(df)
+        df = df if o.get('return_samples', True) else drop_samples_df(df)
+        if variant % 2 == 1:
+            # when the user is done, the shape table is converted in place to other units / trimmed: the table a function returned is a value of
+            # its own, whatever happens to it later must not reach a later call with the same arguments
+            for col in [c_ for c_ in shp_returned.columns if not c_.startswith('sample_')][::2]:
+                shp_returned[col] = -7
+            _KEPT.append(shp_returned)          # ... and the user keeps it
+            del _KEPT[:-4]
+        return df
     return call
 
 
